@@ -104,6 +104,14 @@ def explore(chk):
                         '<p begin="1s" end="2s" style="s1" region="r1">%s</p><p begin="3s" end="4s" style="s2">%s again</p></div></body></tt>') % (align, origin, word, word)
             docs += [("dfxp", ttml(al[0], og[0], "first")), ("dfxp", ttml(al[1], og[1], "second"))]
             ops += [("read", len(docs) - 2, rng.random() < 0.5), ("read", len(docs) - 1, rng.random() < 0.5)]
+        if h % 5 == 0:
+            # cues of two rows in the formats whose line breaks carry nothing; a break node of one result is edited in place
+            # (given a layout): no other result, and no later read, may see it
+            docs += [("srt", "1\n00:00:01,000 --> 00:00:02,000\none\ntwo\n\n2\n00:00:03,000 --> 00:00:04,000\nthree\nfour\n"),
+                     ("webvtt", "WEBVTT\n\n00:01.000 --> 00:02.000\nun\ndeux\n\n00:03.000 --> 00:04.000\ntrois\nquatre\n"),
+                     ("microdvd", "{25}{50}uno|dos\n{75}{100}tres|cuatro\n")]
+            ops += [("read", len(docs) - 3, False), ("read", len(docs) - 2, False), ("edit", "break_node", "last"), ("read", len(docs) - 1, False),
+                    ("read", len(docs) - 3, True), ("edit", "break_node", "last"), ("read", len(docs) - 2, True)]
         if h % 5 == 2:
             # two SCC documents with italics; then the style node of one result is edited in place
             def scc(word_a, word_b):
@@ -240,6 +248,12 @@ def explore(chk):
                             sn = [n for n in c_.nodes if isinstance(n.content, dict)]
                             if sn:
                                 sn[0].content["bold"] = True; sn[0].content.pop("italics", None); break
+                    elif kind == "break_node":
+                        from pycaption.geometry import Layout, Alignment, HorizontalAlignmentEnum, VerticalAlignmentEnum
+                        for c_ in caps:
+                            bn = [n for n in c_.nodes if n.type_ == 3]
+                            if bn:
+                                bn[0].layout_info = Layout(alignment=Alignment(HorizontalAlignmentEnum.RIGHT, VerticalAlignmentEnum.TOP)); break
                     elif kind == "set_style_content":
                         for sel, st in cs.get_styles():
                             if isinstance(st, dict):
